@@ -40,6 +40,7 @@ analysis of the 125 k-line engine is available here); std-library exceptions rai
 censused (C08.stdthrow, informational).
 """
 import json
+import re
 import os
 
 from .. import tree as T
@@ -257,6 +258,10 @@ def run(P, R, tier):
     phaselookup_rule(P, R)
     shiftdir_rule(P, R)
     errview_rule(P, R)
+    growbail_rule(P, R)
+    progindex_rule(P, R)
+    samegas_rule(P, R)
+    nomaster_rule(P, R)
     stdthrow_census(P, R, reach)
 
 
@@ -1546,10 +1551,12 @@ def scancount_rule(P, R):
     negative: resize(n + 1) with n = -2 throws std::length_error, which escapes the API.  Between the scan and the sizing call
     the function must test the sign of the count (a relational comparison of the scanned variable with a literal)."""
     RULE = "C08.scancount"
-    R.rule(RULE, "a count scanned from input is sign-checked before it sizes a container", minimum=2)
+    R.rule(RULE, "a count scanned from input is sign-checked before it sizes a container (directly or through one computed local)", minimum=3)
 
     def key(n):
         n = T.strip_casts(n)
+        while T.is_node(n) and n[0] == "Paren":
+            n = T.strip_casts(n[2])
         if T.is_node(n) and n[0] == "Member":
             return n[2]
         if T.is_node(n) and n[0] == "Ref":
@@ -1566,11 +1573,29 @@ def scancount_rule(P, R):
                         scanned[key(a[3])] = max(scanned.get(key(a[3]), 0), c[1])
         if not scanned:
             continue
+        # one step of propagation: a local computed from a scanned count (all_cells_now = max_cells * (1 + count_stag) + 2) carries its sign
+        derived = {}
+        for t, how, l, x in T.writes(g["body"]):
+            if how == "=" and key(t) and key(t) not in scanned:
+                for v in {key(y) for y in T.walk(x[4]) if T.is_node(y) and y[0] in ("Member", "Ref")} & set(scanned):
+                    if l >= scanned[v]:
+                        derived.setdefault(key(t), set()).add(v)
+        for d in T.walk(g["body"]):
+            if d[0] == "Decl":
+                for v_ in d[2]:
+                    if len(v_) > 2 and T.is_node(v_[2]):
+                        for v in {key(y) for y in T.walk(v_[2]) if T.is_node(y) and y[0] in ("Member", "Ref")} & set(scanned):
+                            if d[1] >= scanned[v]:
+                                derived.setdefault(v_[0], set()).add(v)
         for c in T.calls(g["body"]):
             if T.callee_name(c) not in ("resize", "reserve", "assign", "PHRQ_malloc", "PHRQ_calloc", "PHRQ_realloc"):
                 continue
             for a in c[4]:
-                for v in {key(y) for y in T.walk(a) if T.is_node(y) and y[0] in ("Member", "Ref")} & set(scanned):
+                used = {key(y) for y in T.walk(a) if T.is_node(y) and y[0] in ("Member", "Ref")}
+                via = set()
+                for d in used & set(derived):
+                    via |= derived[d]
+                for v in (used & set(scanned)) | via:
                     if c[1] < scanned[v]:
                         continue
                     n_inst += 1
@@ -1586,8 +1611,8 @@ def scancount_rule(P, R):
                     else:
                         R.violation(RULE, inst, "%s is scanned from input (line %d) and sizes a container with %s(%s) without a sign test: a negative count makes the call throw "
                                     "std::length_error / bad_alloc out of the API" % (v, scanned[v], T.callee_name(c), T.text(a)[:40]), file=g["file"], line=c[1], function=g["q"])
-    if n_inst < 2:
-        R.anchor_missing(RULE, "only %d scanned counts that size a container (read_advection: 2)" % n_inst)
+    if n_inst < 3:
+        R.anchor_missing(RULE, "only %d scanned counts that size a container (read_advection: 2, read_transport -stagnant: 1)" % n_inst)
 
 
 def rowtypes_rule(P, R):
@@ -1744,6 +1769,11 @@ def nullthenuse_rule(P, R):
                 if target is None:
                     continue
                 d = deref(target, x)
+                if not d:
+                    # ... or hands the pointer on: push_back(p) into a list whose readers dereference every entry (get_list_master_ptrs)
+                    for c in ([target] if target[0] == "Call" else []):
+                        if T.callee_name(c) == "push_back" and c[4] and " ".join(T.text(T.strip_casts(c[4][0])).split()) == x:
+                            d = c[1]
                 if not d:
                     continue
                 inst = "%s@%d" % (g["q"].split("::")[-1], s_[1])
@@ -1929,3 +1959,211 @@ def errview_rule(P, R):
                         "an earlier, failed call stay visible although the string is empty" % (x.lower(), "the line vector is not cleared unconditionally" if not cleared
                                                                                               else "the string is not re-read unconditionally"),
                         file=f["file"], line=f["line"], function=f["q"])
+
+
+def growbail_rule(P, R):
+    """The readers of -add_logk grow `add_logk` by one entry and only then look for the name that belongs in it.  When the name is missing
+    they report with CONTINUE and leave the case: the entry that stays must not be a half-built one (name == NULL), because tidy runs before
+    the input-error stop and builds a std::string from every name (std::logic_error leaves the API).  Rule: after `X.add_logk.resize(n + 1)`
+    every flow-ending `if` that precedes the assignment of `.name` in the same statement list takes the entry back
+    (resize(n) / pop_back), or the growth comes after the test."""
+    RULE = "C08.growbail"
+    R.rule(RULE, "-add_logk readers: an entry grown before its name is read is taken back on the path that reports a missing name or constant", minimum=9)
+    n_inst = 0
+    for k, g in sorted(P.functions.items(), key=lambda kv: kv[1]["q"]):
+        if "add_logk" not in T.text(g["body"], -400) if False else False:
+            continue
+        for comp in T.walk(g["body"]):
+            if comp[0] != "Compound":
+                continue
+            st = [x for x in comp[2] if T.is_node(x)]
+            for i, s_ in enumerate(st):
+                if not (s_[0] == "Call" and T.callee_name(s_) == "resize" and T.call_obj(s_) is not None and "add_logk" in T.text(T.call_obj(s_), -40)
+                        and s_[4] and "+ 1" in T.text(s_[4][0], -40)):
+                    continue
+                named = None
+                for j in range(i + 1, len(st)):
+                    if any(how == "=" and T.text(t, -40).rstrip().endswith(".name") and "add_logk" in T.text(t, -40) for t, how, l, x in T.writes(st[j])) and st[j][0] != "If":
+                        named = j
+                        break
+                if named is None:
+                    continue
+                for j in range(i + 1, named):
+                    if st[j][0] != "If" or not any(y[0] in ("Break", "Return", "Continue") for y in T.walk(st[j][3])):
+                        continue
+                    n_inst += 1
+                    inst = "%s@%d" % (g["q"].split("::")[-1], st[j][1] - g["line"])
+                    back = any(T.callee_name(c) in ("resize", "pop_back", "erase") and T.call_obj(c) is not None and "add_logk" in T.text(T.call_obj(c), -40)
+                               and not (c[4] and "+ 1" in T.text(c[4][0], -40)) for c in T.calls(st[j][3]))
+                    if back:
+                        R.ok(RULE, inst, "the bail-out at line %d takes the new entry back" % st[j][1])
+                    else:
+                        R.violation(RULE, inst, "add_logk is grown at line %d; the test at line %d reports and leaves the case with the new entry's name still NULL: "
+                                    "`-add_logk` without a name makes tidy build a std::string from NULL (std::logic_error out of RunString)" % (s_[1], st[j][1]),
+                                    file=g["file"], line=st[j][1], function=g["q"])
+    if n_inst < 9:
+        R.anchor_missing(RULE, "only %d grow-then-test sites for add_logk (5 -add_logk and 4 -add_constant readers confirmed)" % n_inst)
+
+
+def progindex_rule(P, R):
+    """PBasic: an integer that comes from the running program (intfactor / intexpr and nothing else) and subscripts an engine container is
+    tested below AND above before the subscript: a relational comparison of the variable with a literal (lower bound: the values are
+    1-based or cell numbers) and a relational comparison with a non-literal (the extent)."""
+    RULE = "C08.progindex"
+    R.rule(RULE, "PBasic: a container subscript taken from the BASIC program is range-tested on both sides", minimum=2)
+    import collections
+    n_inst = 0
+    for k, g in sorted(P.functions.items(), key=lambda kv: kv[1]["q"]):
+        if not g["q"].startswith("PBasic::"):
+            continue
+        src = collections.defaultdict(set)
+        for t, how, l, x in T.writes(g["body"]):
+            kk = " ".join(T.text(t, -40).split())
+            r = T.strip_casts(x[4]) if how == "=" else None
+            if T.is_node(r) and r[0] == "Call" and T.callee_name(r) in ("intfactor", "intexpr"):
+                src[kk].add("prog")
+            else:
+                src[kk].add("other")
+        ints = {kk for kk, s_ in src.items() if s_ == {"prog"} and re.match(r"^\w+$", kk)}
+        for y in T.walk(g["body"]):
+            if not (y[0] == "Call" and T.callee_name(y) == "operator[]" and len(y[4]) >= 2):
+                continue
+            used = {v for v in ints if re.search(r"\b%s\b" % re.escape(v), T.text(y[4][1], -40))}
+            for v in sorted(used):
+                n_inst += 1
+                inst = "%s:%s" % (g["q"].split("::")[-1], v)
+                lower = upper = False
+                for b in T.walk(g["body"]):
+                    if b[0] == "Bin" and b[2] in ("<", "<=", ">", ">=") and b[1] <= y[1]:
+                        l_, r_ = T.strip_casts(b[3]), T.strip_casts(b[4])
+                        for a_, o_ in ((l_, r_), (r_, l_)):
+                            if T.is_node(a_) and " ".join(T.text(a_, -40).split()) == v:
+                                if T.lit_value(o_) is not None:
+                                    lower = True
+                                else:
+                                    upper = True
+                if lower and upper:
+                    R.ok(RULE, inst, "%s is compared with a literal and with the extent before %s" % (v, T.text(y, -40)[:50]))
+                else:
+                    R.violation(RULE, inst, "%s comes from the BASIC program and subscripts %s at line %d without a %s-bound test: e.g. PARM(-1) reads far outside the "
+                                "container and crashes the process" % (v, T.text(y[4][0], -40)[:40], y[1], "lower" if not lower else "upper"),
+                                file=g["file"], line=y[1], function=g["q"])
+    if n_inst < 2:
+        R.anchor_missing(RULE, "only %d program-valued subscripts found (PARM, CHANGE_POR confirmed)" % n_inst)
+
+
+def samegas_rule(P, R):
+    """check_same_model decides whether the unknowns built for the last model can be reused.  quick_setup dereferences
+    use.Get_gas_phase_ptr() whenever gas_unknown is set, and gas_unknown is set for every gas phase, also one without components.  So
+    in the branch for 'no gas phase in use now' the answer must not depend on the length of last_model.gas_phase alone (an empty
+    GAS_PHASE leaves it empty): it has to look at a field that save_model sets differently with and without a gas phase
+    (gas_phase_type is GP_UNKNOWN exactly without), or at gas_unknown itself; or quick_setup guards the pointer."""
+    RULE = "C08.samegas"
+    R.rule(RULE, "check_same_model: with no gas phase in use, a last model that had a gas phase (even an empty one) is a different model", minimum=1)
+    f = P.one("Phreeqc::check_same_model")
+    sm = P.one("Phreeqc::save_model")
+    qs = P.one("Phreeqc::quick_setup")
+    ifs = [x for x in T.walk(f["body"]) if x[0] == "If" and "Get_gas_phase_ptr" in T.text(x[2], -40) and T.is_node(x[4])]
+    sets = [x for x in T.walk(sm["body"]) if x[0] == "If" and "Get_gas_phase_ptr" in T.text(x[2], -40) and T.is_node(x[4])
+            and any("gas_phase_type" in T.text(t, -40) for t, how, l, w in T.writes(x[4]))]
+    if len(ifs) != 1 or not sets:
+        R.anchor_missing(RULE, "check_same_model gas-phase if/else: %d; save_model else-branch that sets gas_phase_type: %d" % (len(ifs), len(sets)))
+        return
+    conds = [T.text(x[2], -40) for x in T.walk(ifs[0][4]) if x[0] == "If" and any(y[0] == "Return" for y in T.walk(x[3]))]
+    guarded = any(x[0] == "If" and "gas_unknown" in T.text(x[2], -40) and "Get_gas_phase_ptr" in T.text(x[2], -40) for x in T.walk(qs["body"]))
+    if any("gas_phase_type" in c or "gas_unknown" in c for c in conds) or guarded:
+        R.ok(RULE, "check_same_model:no-gas", "tests %s" % ("; ".join(conds)[:120] if not guarded else "quick_setup guards the pointer"))
+    else:
+        R.violation(RULE, "check_same_model:no-gas", "with no gas phase in use the model counts as the same unless last_model.gas_phase has entries (%s): after a simulation with "
+                    "an empty GAS_PHASE the list is empty, gas_unknown is set, and quick_setup dereferences the null gas-phase pointer" % "; ".join(conds)[:100],
+                    file=f["file"], line=ifs[0][4][1], function=f["q"])
+
+
+NOMASTER_EXEMPT = {
+    "Phreeqc::tidy_min_surface|sformatf": "the warning text names the master species of the component found above; a component whose element has no master made the "
+                                          "function report `Surface formula does not contain a surface master species` and `continue` before this loop "
+                                          "(replayed: `SURFACE 1; Zz_wOCa5 Calcite equilibrium_phase 0.1 100` ends in input errors, no crash)",
+    "Phreeqc::tidy_inverse": "elements of solutions and phases already checked; `if (get_input_errors() > 0) return (ERROR)` precedes the loop",
+}
+
+
+def nomaster_rule(P, R):
+    """tidy.cpp resolves elements written by the user in formulas (exchangers and surfaces related to minerals or kinetic reactants,
+    -mole_balance).  element_store() creates an element for any name; one that is not in the database has master == primary == NULL, which
+    the routines report with CONTINUE.  Every dereference of `<elt>->master` / `<elt>->primary` in tidy.cpp therefore needs a null test of
+    the same access path in a condition that governs it: its own condition, an enclosing if / loop condition, or an `if` that precedes
+    it in an enclosing statement list (the report-and-continue idiom)."""
+    RULE = "C08.nomaster"
+    R.rule(RULE, "tidy.cpp: element::master / element::primary is null-tested before it is dereferenced", minimum=18)
+
+    def norm(n):
+        return " ".join(T.text(T.strip_casts(n), -40).split())
+    def nulltests(cond):
+        out = set()
+        for y in T.walk(cond):
+            if y[0] == "Bin" and y[2] in ("==", "!="):
+                for a, b in ((y[3], y[4]), (y[4], y[3])):
+                    b = T.strip_casts(b)
+                    if T.is_node(b) and b[0] == "Lit" and str(b[3]) == "0":
+                        out.add(norm(a))
+        return out
+
+    def governing(node, target, acc):
+        """conditions that govern `target` inside `node`: the conditions of enclosing if / loop statements, of the statement it sits in,
+        and of the if statements that precede it in an enclosing statement list (the report-and-continue idiom)"""
+        if node is target:
+            return True
+        if not T.is_node(node):
+            return False
+        if node[0] == "Compound":
+            for i, st in enumerate(node[2]):
+                if governing(st, target, acc):
+                    for prev in node[2][:i]:
+                        if T.is_node(prev) and prev[0] == "If":
+                            acc.append(prev[2])
+                    return True
+            return False
+        for ch in node[2:]:
+            if isinstance(ch, list) and governing_any(ch, target, acc):
+                if node[0] in ("If", "While") :
+                    acc.append(node[2])
+                elif node[0] == "For" and T.is_node(node[3]):
+                    acc.append(node[3])
+                return True
+        return False
+
+    def in_sformatf(body, target):
+        return any(c[0] == "Call" and T.callee_name(c) == "sformatf" and any(z is target for z in T.walk(c)) for c in T.walk(body))
+
+    def governing_any(ch, target, acc):
+        if T.is_node(ch):
+            return governing(ch, target, acc)
+        return any(isinstance(c, list) and governing_any(c, target, acc) for c in ch)
+    n_inst = 0
+    for k, g in sorted(P.functions.items(), key=lambda kv: kv[1]["q"]):
+        if not g["file"].endswith("tidy.cpp"):
+            continue
+        seen = set()
+        for y in T.walk(g["body"]):
+            if not (y[0] == "Member" and T.is_node(y[3])):
+                continue
+            b = T.strip_casts(y[3])
+            if not (T.is_node(b) and b[0] == "Member" and b[2].split("::")[-1] in ("primary", "master") and "element" in b[2]):
+                continue
+            key = (y[1], norm(b))
+            if key in seen:
+                continue
+            seen.add(key)
+            n_inst += 1
+            inst = "%s@%d" % (g["q"].split("::")[-1], y[1] - g["line"])
+            acc = []
+            governing(g["body"], y, acc)
+            if any(norm(b) in nulltests(c) for c in acc):
+                R.ok(RULE, inst, "%s null-tested in a condition that governs line %d" % (norm(b)[-40:], y[1]))
+            elif g["q"] in NOMASTER_EXEMPT or (g["q"] + "|sformatf" in NOMASTER_EXEMPT and in_sformatf(g["body"], y)):
+                R.ok(RULE, inst, "exempt: " + (NOMASTER_EXEMPT.get(g["q"]) or NOMASTER_EXEMPT[g["q"] + "|sformatf"]))
+            else:
+                R.violation(RULE, inst, "`%s` is dereferenced at line %d with no null test before it: an element name that is not in the database (reported with CONTINUE) "
+                            "crashes the process here" % (norm(b)[-60:], y[1]), file=g["file"], line=y[1], function=g["q"])
+    if n_inst < 18:
+        R.anchor_missing(RULE, "only %d dereferences of element::master / primary in tidy.cpp (20 confirmed)" % n_inst)
